@@ -200,6 +200,34 @@ def recompute_idiom(facts, call, callee):
     return len(objs) == 2 and objs[0] == objs[1] and mems[0] != mems[1] and "DFT" in callee["name"]
 
 
+def partial_calls_exclusive(res):
+    """C08.3: a target block may receive several partial operator calls (one per source group / child group, the number depends on the
+    block size); the calls accumulate, so the sum is grouping-independent only if no two of them update the block at the same time:
+    every task that writes a block must declare it inout / commute (write half of rule C03.b, same engine)"""
+    import c03
+    import effects
+    import stages
+    import taskdeps
+    R = "C08.3.partial-calls-exclusive"
+    n = 0
+    for unit, pairs in (("core", c03.PAIRS), ("specx", c03.SPECX_PAIRS)):
+        facts = tbf.scan(unit)
+        cmap = effects.container_map(facts)
+        weff = effects.wrapper_effects(facts, cmap)
+        sub = tbf.Result("C03")
+        for cls, _ref in pairs:
+            ex = stages.ExecutorSummary(facts, cls)
+            for name, st in ex.stages.items():
+                k = taskdeps.check_stage(st, weff, cmap, sub)
+                n += k
+                if k:
+                    res.instance(R, "%s::%s" % (cls, name), facts.loc(st.fn), "%d task unit(s): every written block declared inout/commute" % k)
+        for v in sub.violations:
+            if "task writes block" in v["msg"]:
+                res.violation(R, v["file"], v["function"], v["key"], v["line"], v["msg"] + ": two partial calls that accumulate into this block may run at the same time and one contribution is lost; whether that happens depends on where the group boundaries fall")
+    res.floor(R, n, 20, "task units with wrapper calls")
+
+
 def run(res, tier):
     facts = tbf.scan("core")
     res.units.append("umbrella TU 'core': operators of TbfTestKernel, FRotationKernel, FUnifKernel and every helper their outputs are handed to; TbfBlockSizeFinder")
@@ -223,6 +251,8 @@ def run(res, tier):
                 res.violation("C08.1.accumulate-only", tbf.rel(facts.path_of(m)), m["qname"], op + ":no-store", m["l"][1],
                               "no store to the output of %s::%s was found: the operator contributes nothing" % (kernel, op))
     res.floor("C08.1", total, 40, "stores to operator outputs")
+    res.rule("C08.3 partial calls exclusive: in the OpenMP and Specx executors every task that writes a group block declares it inout / commutative-write, so the partial accumulating calls a block receives (their number depends on the block size) never overlap")
+    partial_calls_exclusive(res)
     # clause 2
     R = "C08.2.block-size-positive"
     n = 0
